@@ -37,11 +37,13 @@ def truth_table_sweep(p, lam, seed, rnd, kinds=None):
     """C01: every gate x every input tuple x six kinds of admissible inputs."""
     R = 8
     p.key(lam, R, seed)
-    kinds = kinds or ["fresh", "boot", "++", "--", "+-", "-+"]
+    kinds = kinds or ["fresh", "boot", "++", "--", "+-", "-+", "const"]
 
     def put(r, bit, kind, which):
         if kind == "fresh":
             p.load(r, bit)
+        elif kind == "const":                      # a noiseless output of bootsCONSTANT (every rounded mask coefficient is zero)
+            p.const(r, bit)
         elif kind == "boot":                       # an output of an earlier gate: AND(x, 1)
             p.load(6, bit); p.const(7, 1); p.gate("AND", r, 6, 7)
         else:
